@@ -11,6 +11,7 @@
 -/
 import PyTealV
 import PyTealV.Cmd
+import PyTealV.Avm.Trace
 import PyTealV.Check.Validate
 open PyTealV PyTealV.Avm
 
@@ -89,6 +90,34 @@ def handle (st : DState) (line : String) : DState × String :=
         | _, _ => some false
       match same with
       | some true => (st, "agree " ++ Compare.clsName (Compare.cls a))
+      | some false => (st, "differ " ++ Compare.showOutcome true a ++ " ## " ++ Compare.showOutcome true b)
+      | none => (st, "skip " ++ Compare.clsName (Compare.cls a) ++ "/" ++ Compare.clsName (Compare.cls b))
+    | _, _, _, _ => (st, "perr unknown id")
+  | ["cmpx", t1, t2, cid, fuel, slots, stacks] =>
+    -- two TEAL programs: outcome, effects, user-numbered slots AND the stack at every routine exit
+    match lookup st.teals t1, lookup st.teals t2, lookup st.ctxs cid, Util.parseNat fuel with
+    | some p1, some p2, some (cx, w), some f =>
+      let (a, ta) := runTraced cx p1 f { ms := { world := w } } {}
+      let (b, tb) := runTraced cx p2 f { ms := { world := w } } {}
+      let showStack (l : List Val) : String := "[" ++ " ".intercalate (l.map Compare.showVal) ++ "]"
+      let ids : List Nat := if slots == "-" then [] else (slots.splitOn ",").filterMap Util.parseNat
+      let pick (w : World) : List (Nat × Val) := ids.map (fun i => (i, getSlot w.scratch i))
+      let same : Option Bool := match a, b with
+        | .done v w1, .done v' w2 =>
+          some (v == v' && w1.effects == w2.effects && pick w1 == pick w2)
+        | .outOfFuel, _ | _, .outOfFuel => none
+        | .fail (.unmodelled _), _ | _, .fail (.unmodelled _) => none
+        | .fail _, .fail _ => some (Compare.cls a == Compare.cls b ||
+            ((Compare.cls a == .failLogic || Compare.cls a == .failType) && (Compare.cls b == .failLogic || Compare.cls b == .failType)))
+        | _, _ => some false
+      match same with
+      | some true =>
+        (match a with
+         | .done _ _ =>
+           if stacks != "1" || (ta.final == tb.final && ta.exits == tb.exits) then (st, "agree " ++ Compare.clsName (Compare.cls a))
+           else (st, "stackdiffer final " ++ showStack ta.final ++ " ## " ++ showStack tb.final ++
+                     s!" exits {ta.exits.length}/{tb.exits.length}")
+         | _ => (st, "agree " ++ Compare.clsName (Compare.cls a)))
       | some false => (st, "differ " ++ Compare.showOutcome true a ++ " ## " ++ Compare.showOutcome true b)
       | none => (st, "skip " ++ Compare.clsName (Compare.cls a) ++ "/" ++ Compare.clsName (Compare.cls b))
     | _, _, _, _ => (st, "perr unknown id")
